@@ -65,6 +65,45 @@ Theorem C11_oneway_batch :
 Proof. exact (fun state call value exn gate step => oneway_batch state call value exn gate step loop_breaks eq_refl). Qed.
 Print Assumptions C11_oneway_batch.
 
+(* A re-used BatchProxy, for EVERY history of events (queue a call / submit normally or oneway /
+   pull up to n results of the k-th earlier submission immediately, late, partially or never):
+   each submission is exactly the calls queued since the previous submission, and is the
+   sequential run of those calls on the object as the earlier submissions left it (same state, same
+   executed calls, same results / own exception as in C11_batch_equiv; nothing for oneway); pulling
+   results yields the first items of that sequential run and disturbs nothing; final object states
+   agree.  (Queue initially [queue], earlier result streams [subs]: arbitrary.) *)
+Theorem C11_history_equiv :
+  forall (state call value exn : Type) (gate : state -> call -> option exn)
+         (step : state -> call -> state * outcome value exn)
+         (evs : list (event call)) (s : state) (queue : list call) (subs : list (list (outcome value exn))),
+  Forall2 (fun h p =>
+             match h, p with
+             | HQueued, SQueued => True
+             | HSub calls b, SSub calls' ow q =>
+                 calls = calls' /\ b_state b = r_state q /\ b_log b = r_log q /\
+                 (if ow then b_obs b = CNothing
+                  else match b_obs b with
+                       | CStream outs => outs = r_outs q
+                       | CRaised e => exists vs c, r_outs q = map Ok vs ++ [Exc e] /\ nth_error calls (length vs) = Some c /\
+                                                   gate (r_state q) c = Some e /\ r_log q = firstn (length vs) calls
+                       | CNothing => False
+                       end)
+             | HIter o, SIter o' => o = o'
+             | _, _ => False
+             end)
+          (fst (run_history gate step loop_breaks false evs s queue subs))
+          (fst (spec_history gate step evs s queue subs))
+  /\ snd (run_history gate step loop_breaks false evs s queue subs) = snd (spec_history gate step evs s queue subs).
+Proof. exact (fun state call value exn gate step => history_equiv state call value exn gate step loop_breaks eq_refl). Qed.
+Print Assumptions C11_history_equiv.
+
+(* The defective re-use (finding reuse-after-failed-submit: the queue survives a submission that
+   raised) violates that specification: the executed prefix runs again, the new call never does. *)
+Theorem C11_keep_queue_on_raise_refuted :
+  exists evs s, snd (acc_history true true evs s [] []) <> snd (acc_spec_history evs s [] []).
+Proof. exact keep_on_raise_refuted. Qed.
+Print Assumptions C11_keep_queue_on_raise_refuted.
+
 (* The other structural facts the model takes from the source, re-checked on the tables
    regenerated on this run: wrapper appended in place, gate called per member before the call and
    outside the try, plain results appended, no reply and no error reply for oneway, the client
@@ -107,4 +146,12 @@ Proof. vm_compute. auto. Qed.
 Example C11_nonvacuous_oneway :
   let calls := [ {| c_meth := MBoom; c_arg := 4 |}; {| c_meth := MAdd; c_arg := 1 |} ]%Z in
   b_obs (acc_batch loop_breaks true calls 1%Z) = CNothing /\ b_state (acc_batch loop_breaks true calls 1%Z) = 5%Z.
+Proof. vm_compute. auto. Qed.
+Example C11_nonvacuous_history :
+  let evs := [ EvQueue {| c_meth := MAdd; c_arg := 1 |}; EvQueue {| c_meth := MAdd; c_arg := 2 |}; EvSubmit false;
+               EvQueue {| c_meth := MAdd; c_arg := 10 |}; EvQueue {| c_meth := MBoom; c_arg := 1 |};
+               EvQueue {| c_meth := MAdd; c_arg := 100 |}; EvIterate 0 1; EvSubmit false; EvIterate 1 9 ]%Z in
+  snd (acc_history loop_breaks false evs 0%Z [] []) = 14%Z /\
+  nth 6 (fst (acc_history loop_breaks false evs 0%Z [] [])) HQueued = HIter [Ok 1%Z] /\
+  nth 8 (fst (acc_history loop_breaks false evs 0%Z [] [])) HQueued = HIter [Ok 13%Z; Exc (ERuntime 14)].
 Proof. vm_compute. auto. Qed.
